@@ -183,6 +183,9 @@ class MultiPartUpload(S3Limits):
             self.bucket,
             self.key,
             self.uploadId,
+            # same bucket/key on another S3 compatible store is another object
+            self.endpoint_url,
+            self.profile,
         )
 
     def writer(self, kw, *, client: Any = None) -> PartsWriter:
@@ -318,4 +321,11 @@ class DelayedS3Writer(S3Limits):
         return {"Bucket": mpu.bucket, "Key": mpu.key, "ETag": etag}
 
     def __dask_tokenize__(self):
-        return ("odc.DelayedS3Writer", self.mpu.bucket, self.mpu.key)
+        return (
+            "odc.DelayedS3Writer",
+            self.mpu.bucket,
+            self.mpu.key,
+            # same bucket/key on another S3 compatible store is another object
+            self.mpu.endpoint_url,
+            self.mpu.profile,
+        )
